@@ -1,24 +1,946 @@
+// C20: federation `_entities` answers each representation at its own index.
+//
+// spec/Entities.tla states the property on (representation list, resolver
+// outcomes, response) and models plugin/federation/federation.gotpl action by
+// action. The driver
+//  1. lets TLC check the model: the pinned algorithm deviates from the property
+//     in the named situations only (MC_Entities.cfg), the repaired design
+//     satisfies it (MC_Entities_fixed.cfg), the pinned algorithm checked against
+//     the property itself yields a counterexample (MC_Entities_cex.cfg);
+//  2. generates federation probe servers from /repo's templates (probes/fed2:
+//     federation options x layouts, one -race build);
+//  3. (A) replays every (list, outcomes, completion order) TLC enumerates
+//     (MC_Entities_emit.cfg) as a concrete `_entities` query with gated entity
+//     resolvers released in that order, and compares the response element by
+//     element with what the property prescribes (and with the model's answer);
+//  4. (B) has TLC validate the recorded resolver events + response against
+//     EntitiesTrace.
 package main
 
 import (
+	"encoding/json"
 	"fmt"
+	"math/rand"
+	"os"
+	"sort"
+	"strconv"
+	"strings"
+	"time"
 
+	"verifharness/ur"
 	"verifharness/vlib"
 )
 
-func main() {
-	vs := fedVariants(true)
-	bins, err := vlib.BuildProbes("fed2", vs)
-	fmt.Println(bins, err)
-}
-
 const fedBase = "federation:\n  filename: graph/federation.go\n  package: graph\n"
 
-func fedVariants(thorough bool) []vlib.Variant {
-	return []vlib.Variant{
-		{Name: "f0", Extra: fedBase + "  version: 2\n"},
-		{Name: "f1", FollowSchema: true, FuncSyntax: true, Extra: fedBase + "  version: 2\n  options:\n    explicit_requires: true\n"},
-		{Name: "f2", WorkerLimit: 2, Opts: map[string]bool{"call_argument_directives_with_null": true}, Extra: fedBase + "  version: 2\n  options:\n    computed_requires: true\n"},
-		{Name: "f3", Opts: map[string]bool{"resolvers_always_return_pointers": false}, Extra: fedBase + "  version: 1\n  options:\n    explicit_requires: true\n"},
+type fvariant struct {
+	V      vlib.Variant
+	Inline bool // @requires populated inline by resolveEntity (no explicit_requires / computed_requires)
+	NoNil  bool // individual resolvers return values: outcome "nil" does not exist
+	Desc   string
+}
+
+func fedVariants(thorough bool) []fvariant {
+	vs := []fvariant{
+		{V: vlib.Variant{Name: "f0", Extra: fedBase + "  version: 2\n"}, Inline: true, Desc: "v2, default requires, single-file"},
+		{V: vlib.Variant{Name: "f1", FollowSchema: true, FuncSyntax: true, Extra: fedBase + "  version: 2\n  options:\n    explicit_requires: true\n"},
+			Desc: "v2, explicit_requires, follow-schema, function syntax"},
+		{V: vlib.Variant{Name: "f2", WorkerLimit: 2, Opts: map[string]bool{"call_argument_directives_with_null": true},
+			Extra: fedBase + "  version: 2\n  options:\n    computed_requires: true\n"}, Desc: "v2, computed_requires, worker_limit 2"},
+		{V: vlib.Variant{Name: "f3", Opts: map[string]bool{"resolvers_always_return_pointers": false},
+			Extra: fedBase + "  version: 1\n  options:\n    explicit_requires: true\n"}, NoNil: true, Desc: "v1, explicit_requires, value-returning resolvers"},
 	}
+	if thorough {
+		vs = append(vs,
+			fvariant{V: vlib.Variant{Name: "f4", FollowSchema: true, WorkerLimit: 1, Extra: fedBase + "  version: 1\n"}, Inline: true, Desc: "v1, default requires, follow-schema, worker_limit 1"},
+			fvariant{V: vlib.Variant{Name: "f5", FuncSyntax: true, Opts: map[string]bool{"call_argument_directives_with_null": true, "omit_slice_element_pointers": true},
+				Extra: fedBase + "  version: 2\n  options:\n    computed_requires: true\n"}, Desc: "v2, computed_requires, function syntax"},
+		)
+	}
+	return vs
+}
+
+// ---- TLC configurations -------------------------------------------------------------------
+
+type mcfg struct {
+	Name      string
+	Alphabet  []string
+	MaxLen    int
+	MaxFaults int
+}
+
+func (m mcfg) hasReq() bool {
+	for _, k := range m.Alphabet {
+		if k == "R" || strings.HasPrefix(k, "Rm") {
+			return true
+		}
+	}
+	return false
+}
+
+func (m mcfg) edit(inline bool) func(string) string {
+	return func(cfg string) string {
+		q := make([]string, len(m.Alphabet))
+		for i, k := range m.Alphabet {
+			q[i] = strconv.Quote(k)
+		}
+		cfg = strings.Replace(cfg, `Alphabet = {"S", "Mid", "Malt", "T0"}`, "Alphabet = {"+strings.Join(q, ", ")+"}", 1)
+		cfg = strings.Replace(cfg, `Alphabet = {"S"}`, "Alphabet = {"+strings.Join(q, ", ")+"}", 1)
+		cfg = strings.Replace(cfg, "MaxLen = 3", fmt.Sprintf("MaxLen = %d", m.MaxLen), 1)
+		cfg = strings.Replace(cfg, "MaxFaults = 1", fmt.Sprintf("MaxFaults = %d", m.MaxFaults), 1)
+		cfg = strings.Replace(cfg, "ReqInline = TRUE", "ReqInline = "+map[bool]string{true: "TRUE", false: "FALSE"}[inline], 1)
+		return cfg
+	}
+}
+
+var allKinds = []string{"S", "Smiss", "Snull", "Ka", "Kbc", "Kboth", "Kanull", "Kb", "N", "Nbad", "Nmiss",
+	"Mid", "Malt", "Mmiss", "R", "Rm", "Rmnull", "U", "T0"}
+
+func modelConfigs(thorough bool) []mcfg {
+	if !thorough {
+		return []mcfg{
+			{"mix", []string{"S", "Mid", "Malt", "T0"}, 3, 1},
+			{"req", []string{"R", "Rm", "Rmnull", "U"}, 3, 1},
+			{"keys", []string{"Kboth", "Kanull", "N", "Mmiss", "Mid"}, 2, 1},
+			{"wide", allKinds, 2, 1},
+		}
+	}
+	return []mcfg{
+		{"mix", []string{"S", "Mid", "Malt", "T0"}, 4, 1},
+		{"mix2", []string{"S", "Mid", "Malt", "T0"}, 3, 2},
+		{"req", []string{"R", "Rm", "Rmnull", "U"}, 4, 1},
+		{"req2", []string{"R", "Rm", "S"}, 3, 2},
+		{"keys", []string{"Ka", "Kbc", "Kboth", "Kanull", "Kb", "N", "Nbad"}, 3, 1},
+		{"batch", []string{"Mid", "Malt", "Mmiss", "Rm", "N"}, 3, 2},
+		{"wide", allKinds, 2, 2},
+		{"wide3", []string{"S", "Snull", "Kbc", "N", "Mid", "Malt", "R", "Rm", "U", "T0"}, 3, 1},
+	}
+}
+
+// ---- the scenario TLC printed ----------------------------------------------------------------
+
+type elem struct {
+	R string `json:"r"`
+	I int    `json:"i"`
+	W int    `json:"w"`
+}
+
+type ideal struct {
+	Null bool     `json:"null"`
+	Fail bool     `json:"fail"`
+	Rs   []string `json:"rs"`
+	I    int      `json:"i"`
+	W    int      `json:"w"`
+}
+
+type call struct {
+	R string `json:"r"`
+	I int    `json:"i"`
+}
+
+type emitted struct {
+	Reps   []string          `json:"reps"`
+	Out    []string          `json:"out"`
+	Bout   map[string]string `json:"bout"`
+	Order  []call            `json:"order"`
+	List   []elem            `json:"list"`
+	Errs   int               `json:"errs"`
+	Recs   int               `json:"recs"`
+	Ideal  []ideal           `json:"ideal"`
+	Units  int               `json:"units"`
+	MayErr bool              `json:"mayerr"`
+	Devs   []string          `json:"devs"`
+	Inline bool              `json:"inline"`
+	Cfg    string            `json:"cfg"`
+}
+
+func (e *emitted) scenarioKey() string {
+	b, _ := json.Marshal([]any{e.Reps, e.Out, e.Bout})
+	return string(b)
+}
+
+func (e *emitted) hasIndividualNil() bool {
+	for i, o := range e.Out {
+		if o == "nil" && !isBatchKind(e.Reps[i]) {
+			return true
+		}
+	}
+	return false
+}
+
+func isBatchKind(k string) bool { return strings.HasPrefix(k, "M") || strings.HasPrefix(k, "Rm") }
+
+var batchRes = map[string]bool{"findManyMByIDs": true, "findManyMByAlts": true, "findManyRmByIDs": true}
+
+var resType = map[string]string{"findSByID": "S", "findKByA": "K", "findKByBAndC": "K", "findNByOid": "N",
+	"findManyMByIDs": "M", "findManyMByAlts": "M", "findRByID": "R", "findManyRmByIDs": "Rm"}
+
+// callKey renders the concrete gate / plan / event key of a resolver call for key index idx
+// (1-based; the driver gives representation j the key value "i<j-1>").
+func callKey(r string, idx int) string {
+	id := fmt.Sprintf("i%d", idx-1)
+	switch r {
+	case "findKByBAndC":
+		return ur.C20Key(r, []string{id, fmt.Sprintf("c%d", idx-1)})
+	}
+	return ur.C20Key(r, []string{id})
+}
+
+// concretise builds the representation JSON for kind k at 1-based index i; id maps an index to
+// the index whose key values it carries (identity, or the first duplicate for the dup suite).
+func concretise(k string, i int, rnd *rand.Rand) map[string]any {
+	id := fmt.Sprintf("i%d", i-1)
+	c := fmt.Sprintf("c%d", i-1)
+	w := fmt.Sprintf("w%d", i-1)
+	var m map[string]any
+	switch k {
+	case "S":
+		m = map[string]any{"__typename": "S", "id": id}
+	case "Smiss":
+		m = map[string]any{"__typename": "S"}
+	case "Snull":
+		m = map[string]any{"__typename": "S", "id": nil}
+	case "Ka":
+		m = map[string]any{"__typename": "K", "a": id}
+	case "Kbc":
+		m = map[string]any{"__typename": "K", "b": id, "c": c}
+	case "Kboth":
+		m = map[string]any{"__typename": "K", "a": id, "b": id, "c": c}
+	case "Kanull":
+		m = map[string]any{"__typename": "K", "a": nil, "b": id, "c": c}
+	case "Kb":
+		m = map[string]any{"__typename": "K", "b": id}
+	case "N":
+		m = map[string]any{"__typename": "N", "o": map[string]any{"id": id}}
+	case "Nbad":
+		m = map[string]any{"__typename": "N", "o": []any{"x", 5.0, []any{id}}[rnd.Intn(3)]}
+	case "Nmiss":
+		if rnd.Intn(2) == 0 {
+			m = map[string]any{"__typename": "N"}
+		} else {
+			m = map[string]any{"__typename": "N", "o": map[string]any{}}
+		}
+	case "Mid":
+		m = map[string]any{"__typename": "M", "id": id}
+	case "Malt":
+		m = map[string]any{"__typename": "M", "alt": id}
+	case "Mmiss":
+		m = map[string]any{"__typename": "M"}
+	case "R":
+		m = map[string]any{"__typename": "R", "id": id, "w": w}
+	case "Rm":
+		m = map[string]any{"__typename": "Rm", "id": id, "w": w}
+	case "Rmnull":
+		m = map[string]any{"__typename": "Rm", "id": nil, "w": w}
+	case "U":
+		m = map[string]any{"__typename": "Zz", "id": id}
+	case "T0":
+		switch rnd.Intn(3) {
+		case 0:
+			m = map[string]any{"id": id}
+		case 1:
+			m = map[string]any{"__typename": 7.0, "id": id}
+		default:
+			m = map[string]any{"__typename": nil, "id": id}
+		}
+	default:
+		vlib.Infra("unknown kind %s", k)
+	}
+	if rnd.Intn(3) == 0 {
+		m["zq"] = "noise" // a field no key mentions
+	}
+	return m
+}
+
+const entQuery = `query($reps:[_Any!]!){_entities(representations:$reps){__typename ... on S{v} ... on K{v} ... on N{v} ... on M{v} ... on R{v z} ... on Rm{v z}}}`
+
+type job struct {
+	E       *emitted
+	S       *vlib.Scenario
+	Variant string
+	Dup     []int // dup suite: index -> index whose keys it repeats (1-based), nil otherwise
+}
+
+func (e *emitted) scenario(id string, rnd *rand.Rand, dup []int) *vlib.Scenario {
+	reps := make([]any, len(e.Reps))
+	for i, k := range e.Reps {
+		src := i + 1
+		if dup != nil {
+			src = dup[i]
+		}
+		reps[i] = concretise(k, src, rand.New(rand.NewSource(rnd.Int63()+int64(src)*7919)))
+	}
+	if dup != nil {
+		// identical duplicates: same noise / same concretisation by construction (seeded by src)
+		for i := range reps {
+			if dup[i] != i+1 {
+				reps[i] = reps[dup[i]-1]
+			}
+		}
+	}
+	plan := map[string]ur.Outcome{}
+	for i, o := range e.Out {
+		if o == "ent" || o == "-" {
+			continue
+		}
+		k := map[string]string{"nil": "null", "err": "err", "panic": "panic"}[o]
+		if len(e.Ideal[i].Rs) == 0 {
+			continue
+		}
+		// individual: the call for representation i; batch: the element answering input i
+		plan[callKey(e.Ideal[i].Rs[0], i+1)] = ur.Outcome{K: k}
+	}
+	for r, o := range e.Bout {
+		if o != "ok" {
+			plan[r] = ur.Outcome{K: o}
+		}
+	}
+	s := &vlib.Scenario{ID: id, Query: entQuery, Vars: map[string]any{"reps": reps}, Plan: plan}
+	if dup == nil {
+		s.Sched = "order"
+		var keys []string
+		for _, c := range e.Order {
+			if batchRes[c.R] {
+				keys = append(keys, c.R)
+			} else {
+				keys = append(keys, callKey(c.R, c.I))
+			}
+		}
+		for _, k := range keys {
+			s.Order = append(s.Order, "?"+k) // all calls are in flight together
+		}
+		s.Order = append(s.Order, keys...)
+	}
+	return s
+}
+
+// ---- observation ---------------------------------------------------------------------------
+
+type observed struct {
+	List    []elem
+	Errs    int
+	Recs    int
+	Panics  int
+	BadPath []string
+	Raw     string
+}
+
+func untag(t map[string]any) any {
+	switch t["t"] {
+	case "n", nil:
+		return nil
+	case "o":
+		m := map[string]any{}
+		fs, _ := t["f"].([]any)
+		for _, f := range fs {
+			fm := f.(map[string]any)
+			v, _ := fm["v"].(map[string]any)
+			m[fm["k"].(string)] = untag(v)
+		}
+		return m
+	case "l":
+		es, _ := t["e"].([]any)
+		out := make([]any, len(es))
+		for i, e := range es {
+			em, _ := e.(map[string]any)
+			out[i] = untag(em)
+		}
+		return out
+	}
+	return t["v"]
+}
+
+func parseIdx(s, prefix string) int {
+	if strings.HasPrefix(s, prefix) {
+		if n, err := strconv.Atoi(s[len(prefix):]); err == nil {
+			return n + 1
+		}
+	}
+	switch s {
+	case "", "null":
+		return 0
+	case "extra":
+		return -1
+	}
+	return -2
+}
+
+// abstractElem maps one element of the `_entities` list to (resolver, key index, requires index).
+func abstractElem(v any) elem {
+	m, ok := v.(map[string]any)
+	if !ok || v == nil {
+		return elem{}
+	}
+	tn, _ := m["__typename"].(string)
+	vs, _ := m["v"].(string)
+	op := strings.Index(vs, "(")
+	if op < 0 || !strings.HasSuffix(vs, ")") {
+		return elem{R: "unparsable:" + vs, I: -2}
+	}
+	r := vs[:op]
+	args := strings.Split(vs[op+1:len(vs)-1], ",")
+	e := elem{R: r, I: parseIdx(args[0], "i")}
+	if r == "findKByBAndC" && len(args) == 2 && e.I > 0 && parseIdx(args[1], "c") != e.I {
+		e.I = -2 // the two parts of a composite key come from different representations
+	}
+	if resType[r] != tn {
+		e.R = "typename-mismatch:" + tn + "/" + r
+	}
+	if tn == "R" || tn == "Rm" {
+		z, _ := m["z"].(string)
+		e.W = parseIdx(z, "w")
+		if e.W <= 0 {
+			e.W = -1
+		}
+	}
+	return e
+}
+
+func observe(s *vlib.Scenario, n int) (*observed, string) {
+	r := s.Result
+	if len(r.Resps) != 1 {
+		return nil, fmt.Sprintf("%d responses", len(r.Resps))
+	}
+	o := &observed{}
+	b, _ := json.Marshal(r.Resps[0].Data)
+	o.Raw = string(b)
+	data, _ := untag(r.Resps[0].Data).(map[string]any)
+	lst, _ := data["_entities"].([]any)
+	if data == nil || data["_entities"] == nil {
+		return nil, "no _entities list in data: " + o.Raw
+	}
+	if len(lst) != n {
+		return nil, fmt.Sprintf("_entities has %d elements for %d representations", len(lst), n)
+	}
+	for _, v := range lst {
+		o.List = append(o.List, abstractElem(v))
+	}
+	o.Errs = len(r.Resps[0].Errs)
+	for _, e := range r.Resps[0].Errs {
+		if e.P != "_entities" && !strings.HasPrefix(e.P, "_entities.") {
+			o.BadPath = append(o.BadPath, e.P)
+		}
+	}
+	for _, ev := range r.Events {
+		if ev.E == "Recover" {
+			o.Recs++
+		}
+		if ev.E == "End" && ev.T == "panic" {
+			o.Panics++
+		}
+	}
+	return o, ""
+}
+
+var devKey = map[string]string{
+	"other-key":     "multi-resolver-from-first-rep",
+	"first-invalid": "multi-invalid-first-rep-fails-group",
+	"short":         "multi-short-result-null-without-error",
+	"nil-requires":  "multi-nil-entity-requires-panic-loses-rest",
+}
+
+// judge compares the observation with the property's prescription (ideal) and with the model of
+// the pinned tree; returns (violation key, detail) or "".
+func judge(j *job, o *observed) (string, string) {
+	e := j.E
+	mapIdx := func(i int) int {
+		if j.Dup != nil && i >= 1 && i <= len(j.Dup) {
+			return j.Dup[i-1]
+		}
+		return i
+	}
+	var bad []string
+	cls := ""
+	note := func(c, d string) {
+		if cls == "" {
+			cls = c
+		}
+		bad = append(bad, d)
+	}
+	for i, id := range e.Ideal {
+		ob := o.List[i]
+		switch {
+		case id.Null && ob != (elem{}):
+			note("unexpected-entity", fmt.Sprintf("element %d must be null (representation %s, outcome %s) but is %+v", i, e.Reps[i], e.Out[i], ob))
+		case id.Null:
+		case ob == (elem{}):
+			note("lost-entity", fmt.Sprintf("element %d is null although representation %d (%s) resolves", i, i, e.Reps[i]))
+		default:
+			okR := false
+			for _, r := range id.Rs {
+				okR = okR || r == ob.R
+			}
+			switch {
+			case ob.I > 0 && ob.I != mapIdx(id.I):
+				note("wrong-index", fmt.Sprintf("element %d holds the entity resolved from representation %d", i, ob.I-1))
+			case ob.I <= 0:
+				note("empty-key", fmt.Sprintf("element %d was resolved by %s from an empty / foreign key (%d)", i, ob.R, ob.I))
+			case !okR:
+				note("wrong-resolver", fmt.Sprintf("element %d was resolved by %s, representation carries the keys of %v", i, ob.R, id.Rs))
+			case ob.W != mapIdx(id.W):
+				note("requires-from-other", fmt.Sprintf("element %d: @requires field populated from representation %d (w index %d), expected its own", i, ob.W-1, ob.W))
+			}
+		}
+	}
+	if o.Errs < e.Units {
+		note("missing-error", fmt.Sprintf("%d error(s) for %d failed unit(s)", o.Errs, e.Units))
+	}
+	if e.Units == 0 && !e.MayErr && o.Errs > 0 {
+		note("spurious-error", fmt.Sprintf("%d error(s) although nothing failed", o.Errs))
+	}
+	if o.Recs < o.Panics {
+		note("panic-without-recover-hook", fmt.Sprintf("%d resolver panic(s), recover hook ran %d time(s)", o.Panics, o.Recs))
+	}
+	if len(o.BadPath) > 0 {
+		note("error-path", fmt.Sprintf("errors outside _entities: %v", o.BadPath))
+	}
+	same := o.Errs == e.Errs && o.Recs == e.Recs && len(o.List) == len(e.List)
+	if same {
+		for i := range o.List {
+			ml := e.List[i]
+			ml.I, ml.W = mapIdx(ml.I), mapIdx(ml.W)
+			same = same && o.List[i] == ml
+		}
+	}
+	desc := func() string {
+		rb, _ := json.Marshal(j.S.Vars["reps"])
+		pb, _ := json.Marshal(j.S.Plan)
+		return fmt.Sprintf("variant=%s representations=%s plan=%s release order=%v\nobserved list=%+v errors=%d recovers=%d\nmodel of the pinned tree: list=%+v errors=%d recovers=%d; property: %s",
+			j.Variant, rb, pb, j.S.Order, o.List, o.Errs, o.Recs, e.List, e.Errs, e.Recs, strings.Join(bad, "; "))
+	}
+	if len(bad) > 0 {
+		if len(e.Devs) > 0 && same {
+			// a named deviation of the pinned tree, reproduced exactly as modelled
+			ds := append([]string{}, e.Devs...)
+			sort.Strings(ds)
+			return devKey[ds[0]], desc()
+		}
+		kinds := append([]string{}, e.Reps...)
+		return "entities|" + cls + "|" + strings.Join(kinds, ","), desc()
+	}
+	if !same && len(e.Devs) == 0 {
+		// the property holds but the code does not do what the model of the algorithm does
+		// (error / recover counts): reported, since the model is the specification of the template
+		return "entities|diverges-from-model|" + strings.Join(e.Reps, ","), desc() + "(property satisfied; counts differ from the model)"
+	}
+	return "", ""
+}
+
+// ---- trace lines (B) -----------------------------------------------------------------------
+
+func linesOf(jobs map[string]*job) func(*vlib.Scenario) [][]byte {
+	return func(s *vlib.Scenario) [][]byte {
+		j := jobs[s.ID]
+		e := j.E
+		var out [][]byte
+		add := func(v any) { b, _ := json.Marshal(v); out = append(out, b) }
+		reps := append([]string{}, e.Reps...)
+		outs := append([]string{}, e.Out...)
+		add(map[string]any{"e": "Scenario", "id": s.ID, "reps": reps, "out": outs, "bout": e.Bout})
+		for _, ev := range s.Result.Events {
+			switch ev.E {
+			case "Start", "End":
+				if batchRes[ev.P] {
+					if ev.E == "Start" {
+						ks := []int{}
+						for _, k := range strings.Fields(ev.A) {
+							op := strings.Index(k, "(")
+							ks = append(ks, parseIdx(strings.Split(k[op+1:len(k)-1], ",")[0], "i"))
+						}
+						add(map[string]any{"e": "BStart", "r": ev.P, "ks": ks})
+					} else {
+						add(map[string]any{"e": "BEnd", "r": ev.P, "o": ev.T})
+					}
+					continue
+				}
+				op := strings.Index(ev.P, "(")
+				if op < 0 {
+					continue
+				}
+				idx := parseIdx(strings.Split(ev.P[op+1:len(ev.P)-1], ",")[0], "i")
+				if ev.E == "Start" {
+					add(map[string]any{"e": "Start", "r": ev.P[:op], "i": idx})
+				} else {
+					o := ev.T
+					if o == "null" {
+						o = "nil"
+					}
+					add(map[string]any{"e": "End", "r": ev.P[:op], "i": idx, "o": o})
+				}
+			case "Err":
+				add(map[string]any{"e": "Err"})
+			case "Recover":
+				add(map[string]any{"e": "Recover"})
+			}
+		}
+		ob, _ := observe(s, len(e.Reps))
+		lst := []elem{}
+		if ob != nil {
+			lst = append(lst, ob.List...)
+		}
+		errs := 0
+		if ob != nil {
+			errs = ob.Errs
+		}
+		add(map[string]any{"e": "Respond", "list": lst, "errs": errs})
+		return out
+	}
+}
+
+// ---- main ----------------------------------------------------------------------------------
+
+func runMC(c *vlib.Check, m mcfg, cfg string, inline bool, workers int, wantOK bool) *vlib.TLCResult {
+	res, err := vlib.RunTLC(vlib.TLCOpts{Module: "Entities", Config: cfg, Workers: workers, CfgEdit: m.edit(inline),
+		Scratch: vlib.Work("C20", fmt.Sprintf("mc-%s-%s-%v", strings.TrimSuffix(cfg, ".cfg"), m.Name, inline)), Timeout: 15 * time.Minute})
+	if err != nil {
+		vlib.Infra("tlc %s: %v", cfg, err)
+	}
+	if wantOK && !res.OK {
+		vlib.Infra("model check %s (%s) failed - a specification error, not a verdict on the code:\n%s", cfg, m.Name, res.Violation)
+	}
+	return res
+}
+
+func main() {
+	c := vlib.NewCheck("C20", "model_checking")
+	thorough := vlib.Tier() == "thorough"
+	seed := vlib.Seed()
+
+	// 1. probes generated from the current templates
+	fvs := fedVariants(thorough)
+	var vs []vlib.Variant
+	for _, f := range fvs {
+		vs = append(vs, f.V)
+	}
+	race := vlib.Variant{Name: "f0r", Race: true, Extra: fedBase + "  version: 2\n"}
+	vs = append(vs, race)
+	t0 := time.Now()
+	bins, err := vlib.BuildProbes("fed2", vs)
+	if err != nil {
+		vlib.Infra("build federation probes (do /repo's federation templates still generate compilable code?): %v", err)
+	}
+	fmt.Fprintf(os.Stderr, "[c20] %d probe variants generated and compiled in %.0fs\n", len(vs), time.Since(t0).Seconds())
+
+	// 2. model checking + export
+	mcs := modelConfigs(thorough)
+	var ems []*emitted
+	for _, m := range mcs {
+		inl := []bool{true}
+		if m.hasReq() {
+			inl = []bool{true, false}
+		}
+		for _, in := range inl {
+			p := runMC(c, m, "MC_Entities.cfg", in, 4, true)
+			c.AddStates(p.Distinct, p.Generated)
+			f := runMC(c, m, "MC_Entities_fixed.cfg", in, 4, true)
+			c.AddStates(f.Distinct, f.Generated)
+			em := runMC(c, m, "MC_Entities_emit.cfg", in, 1, true)
+			n := 0
+			for _, ln := range em.Printed {
+				if len(ln) < 2 || ln[0] != '"' {
+					continue
+				}
+				inner, err := strconv.Unquote(ln)
+				if err != nil {
+					continue
+				}
+				var e emitted
+				if err := json.Unmarshal([]byte(inner), &e); err != nil || e.Bout == nil {
+					continue
+				}
+				e.Cfg = m.Name
+				ems = append(ems, &e)
+				n++
+			}
+			if n == 0 {
+				vlib.Infra("TLC exported no behaviours for %s", m.Name)
+			}
+			fmt.Fprintf(os.Stderr, "[c20] model %-6s inline=%-5v pinned %d states, repaired %d states, %d (scenario, order) behaviours exported\n", m.Name, in, p.Distinct, f.Distinct, n)
+		}
+	}
+	// the pinned algorithm against the property itself must fail (regression of the specification)
+	cex := runMC(c, mcfg{"cex", []string{"Mid", "Malt"}, 2, 1}, "MC_Entities_cex.cfg", true, 1, false)
+	if cex.OK || !strings.Contains(cex.Output, "Invariant Correct is violated") {
+		vlib.Infra("MC_Entities_cex: the pinned model no longer violates Correct (specification changed?)\n%s", cex.Violation)
+	}
+	c.Set("tlc_counterexample_on_pinned_model", "Invariant Correct violated for reps <<Mid, Malt>> (resolver of reps[0] used for the whole batch group)")
+
+	// 3. (A) replay on every variant
+	jobsByID := map[string]*job{}
+	dupSeen := map[string]bool{}
+	nScen := map[string]bool{}
+	var allOK []*job
+	drift := 0
+	for vi, f := range fvs {
+		var jobs []*job
+		for k, e := range ems {
+			if e.hasReqKinds() && e.Inline != f.Inline {
+				continue
+			}
+			if !e.hasReqKinds() && !e.Inline {
+				continue
+			}
+			if f.NoNil && e.hasIndividualNil() {
+				continue
+			}
+			id := fmt.Sprintf("C20-%s-%s-%d", f.V.Name, e.Cfg, k)
+			j := &job{E: e, Variant: f.V.Name}
+			j.S = e.scenario(id, rand.New(rand.NewSource(seed*1000003+int64(k))), nil)
+			j.S.Variant = f.V.Name
+			jobs = append(jobs, j)
+			nScen[e.scenarioKey()] = true
+			// dup suite: the same list with identical duplicates (same key values), ungated
+			if dup := e.dupMap(); dup != nil && !dupSeen[f.V.Name+e.scenarioKey()] {
+				dupSeen[f.V.Name+e.scenarioKey()] = true
+				dj := &job{E: e, Variant: f.V.Name, Dup: dup}
+				dj.S = e.scenario(id+"-dup", rand.New(rand.NewSource(seed*1000003+int64(k))), dup)
+				dj.S.Variant = f.V.Name
+				jobs = append(jobs, dj)
+			}
+		}
+		var scs []*vlib.Scenario
+		for _, j := range jobs {
+			scs = append(scs, j.S)
+			jobsByID[j.S.ID] = j
+		}
+		t1 := time.Now()
+		if err := vlib.RunScenarios(bins[f.V.ID()], scs, 5, nil); err != nil {
+			vlib.Infra("replay on %s: %v", f.V.Name, err)
+		}
+		fmt.Fprintf(os.Stderr, "[c20] variant %s (%s): %d behaviours replayed in %.0fs\n", f.V.Name, f.Desc, len(scs), time.Since(t1).Seconds())
+		for _, j := range jobs {
+			if ok := evaluate(c, j, bins[f.V.ID()], &drift); ok && j.Dup == nil {
+				allOK = append(allOK, j)
+			}
+		}
+		if len(jobs) > 0 {
+			j := jobs[(len(jobs)/3+vi)%len(jobs)]
+			c.Sample(map[string]any{"variant": f.V.Name, "options": f.Desc, "kinds": j.E.Reps, "outcomes": j.E.Out, "batch_outcomes": j.E.Bout,
+				"representations": j.S.Vars["reps"], "release_order": j.S.Order, "prescribed": j.E.Ideal, "model": j.E.List})
+		}
+	}
+	c.Set("scenarios_distinct", len(nScen))
+	c.Set("behaviours_exported", len(ems))
+	c.Set("replay_schedule_drift_notes", drift)
+
+	// 3b. -race build: a sample of the behaviours, any race report is a violation
+	{
+		var jobs []*job
+		step := 7
+		if thorough {
+			step = 3
+		}
+		for k, e := range ems {
+			if !e.Inline || k%step != int(seed)%step {
+				continue
+			}
+			j := &job{E: e, Variant: "f0r"}
+			j.S = e.scenario(fmt.Sprintf("C20-race-%d", k), rand.New(rand.NewSource(seed*1000003+int64(k))), nil)
+			j.S.Variant = "f0r"
+			jobs = append(jobs, j)
+		}
+		var scs []*vlib.Scenario
+		for _, j := range jobs {
+			scs = append(scs, j.S)
+		}
+		t1 := time.Now()
+		if err := vlib.RunScenarios(bins[race.ID()], scs, 4, []string{"GORACE=halt_on_error=1 exitcode=66"}); err != nil {
+			vlib.Infra("race replay: %v", err)
+		}
+		fmt.Fprintf(os.Stderr, "[c20] -race variant: %d behaviours replayed in %.0fs\n", len(scs), time.Since(t1).Seconds())
+		for _, j := range jobs {
+			evaluate(c, j, bins[race.ID()], &drift)
+		}
+		c.Set("race_behaviours", len(jobs))
+	}
+
+	// 4. (B) trace validation, per variant mode (ReqInline differs)
+	for _, f := range fvs {
+		var scs []*vlib.Scenario
+		for i, j := range allOK {
+			if j.Variant != f.V.Name {
+				continue
+			}
+			// quick tier: each behaviour's trace is validated on one variant (rotating)
+			if !thorough && i%len(fvs) != indexOf(fvs, f.V.Name) {
+				continue
+			}
+			scs = append(scs, j.S)
+		}
+		if len(scs) == 0 {
+			continue
+		}
+		m := mcfg{"trace", []string{"S"}, 4, 2}
+		t1 := time.Now()
+		rej, err := vlib.ValidateBatchWith(c, vlib.TLCOpts{Module: "EntitiesTrace", Config: "EntitiesTrace.cfg", CfgEdit: m.edit(f.Inline)}, nil, scs,
+			linesOf(jobsByID), vlib.Work("C20", "tv-"+f.V.Name))
+		if err != nil {
+			vlib.Infra("trace validation %s: %v", f.V.Name, err)
+		}
+		// a trace the pinned model rejects may be the repaired behaviour: ask the repaired model
+		var still []vlib.Rejection
+		if len(rej) > 0 {
+			var again []*vlib.Scenario
+			for _, r := range rej {
+				again = append(again, r.Scenario)
+			}
+			fixEdit := func(cfg string) string {
+				cfg = m.edit(f.Inline)(cfg)
+				for _, k := range []string{"FixFirstRep", "FixShort", "FixNilReq"} {
+					cfg = strings.Replace(cfg, k+" = FALSE", k+" = TRUE", 1)
+				}
+				return cfg
+			}
+			still, err = vlib.ValidateBatchWith(c, vlib.TLCOpts{Module: "EntitiesTrace", Config: "EntitiesTrace.cfg", CfgEdit: fixEdit}, nil, again,
+				linesOf(jobsByID), vlib.Work("C20", "tvfix-"+f.V.Name))
+			if err != nil {
+				vlib.Infra("trace validation (repaired model) %s: %v", f.V.Name, err)
+			}
+		}
+		fmt.Fprintf(os.Stderr, "[c20] variant %s: %d traces validated by TLC in %.0fs (%d rejected by the pinned model, %d by both)\n", f.V.Name, len(scs), time.Since(t1).Seconds(), len(rej), len(still))
+		for _, r := range still {
+			j := jobsByID[r.Scenario.ID]
+			rb, _ := json.Marshal(j.S.Vars["reps"])
+			c.Violate("entities|trace-rejected|"+strings.Join(j.E.Reps, ","),
+				fmt.Sprintf("Entities (pinned and repaired) does not admit the observed execution on %s\nrepresentations=%s outcomes=%v batch=%v\n%s", f.V.Name, rb, j.E.Out, j.E.Bout, r.Describe()), r.Scenario)
+		}
+	}
+
+	c.Set("rule", "TLC enumerates (MC_Entities_emit.cfg) every representation list of length 0..MaxLen over an alphabet of representation kinds "+
+		"(typename x status of each key field: single / alternative / composite / nested key, batch types, @requires types, unknown type, missing __typename, missing / null / malformed key) "+
+		"x resolver outcomes (entity, nil, error, panic; batch: right / short / long result, error, panic; <= MaxFaults faults) x completion orders of the resolver calls; "+
+		"each behaviour is replayed on every generated federation variant as a concrete `_entities` query with gated resolvers released in that order and compared element-wise with the property's prescription and the model's answer; "+
+		"the recorded events and response are validated by TLC against EntitiesTrace. A class is (model configuration, multiset of kinds, fault kinds, deviation class) per variant")
+	c.Set("exhaustive", true)
+	c.Set("variants", len(fvs)+1)
+	c.Assume("representations are abstracted to kinds; key / @requires values are index-naming strings (concrete JSON chosen by the seeded concretiser: noise fields, three forms of a missing __typename, three forms of a malformed nested key)")
+	c.Assume("entity resolvers return when released (gates); the completion order is controlled, the start order is left to the Go scheduler")
+	c.Assume("error paths are only required to lie under `_entities` (the generated code reports every entity error at path [_entities] without an index)")
+	c.Finish()
+}
+
+func indexOf(fvs []fvariant, name string) int {
+	for i, f := range fvs {
+		if f.V.Name == name {
+			return i
+		}
+	}
+	return 0
+}
+
+func (e *emitted) hasReqKinds() bool {
+	for _, k := range e.Reps {
+		if k == "R" || strings.HasPrefix(k, "Rm") {
+			return true
+		}
+	}
+	return false
+}
+
+// dupMap: for a fault-free scenario outside the deviation classes with a repeated kind, the map
+// index -> first index of that kind (identical duplicate representations); nil otherwise.
+func (e *emitted) dupMap() []int {
+	if len(e.Devs) > 0 {
+		return nil
+	}
+	for _, o := range e.Out {
+		if o != "ent" && o != "-" {
+			return nil
+		}
+	}
+	for _, o := range e.Bout {
+		if o != "ok" {
+			return nil
+		}
+	}
+	first := map[string]int{}
+	dup := make([]int, len(e.Reps))
+	any := false
+	for i, k := range e.Reps {
+		if f, ok := first[k]; ok {
+			dup[i] = f
+			any = true
+		} else {
+			first[k] = i + 1
+			dup[i] = i + 1
+		}
+	}
+	if !any {
+		return nil
+	}
+	return dup
+}
+
+// evaluate judges one executed behaviour; returns true when it ran to a response (usable for B).
+func evaluate(c *vlib.Check, j *job, bin string, drift *int) bool {
+	s := j.S
+	e := j.E
+	c.AddEvals(1)
+	faults := []string{}
+	for _, o := range e.Out {
+		if o != "ent" && o != "-" {
+			faults = append(faults, o)
+		}
+	}
+	for _, o := range e.Bout {
+		if o != "ok" {
+			faults = append(faults, "b:"+o)
+		}
+	}
+	sort.Strings(faults)
+	kinds := append([]string{}, e.Reps...)
+	sort.Strings(kinds)
+	c.Class(fmt.Sprintf("%s|%s|%s|%s|%v|dup=%v", j.Variant, e.Cfg, strings.Join(kinds, ","), strings.Join(faults, ","), e.Devs, j.Dup != nil))
+	rb, _ := json.Marshal(s.Vars["reps"])
+	pb, _ := json.Marshal(s.Plan)
+	where := fmt.Sprintf("variant=%s representations=%s plan=%s release order=%v", j.Variant, rb, pb, s.Order)
+	if s.Result != nil && s.Result.Hung {
+		s2 := vlib.Confirm(bin, s, nil)
+		if s2.Result != nil && !s2.Result.Hung && !s2.Crashed {
+			s.Result = s2.Result // slow machine, not a hang
+		} else if s2.Crashed {
+			s.Crashed, s.Stderr, s.Result = true, s2.Stderr, nil
+		}
+	}
+	switch {
+	case s.Crashed || s.Result == nil:
+		if strings.Contains(s.Stderr, "DATA RACE") {
+			c.Violate("entities|data-race", fmt.Sprintf("race detector report while resolving _entities\n%s\n%s", where, tailStr(s.Stderr, 2500)), s)
+		} else {
+			c.Violate("entities|process-death", fmt.Sprintf("the server process died while resolving _entities (a panic on a spawned goroutine that no recover site covers?)\n%s\n%s", where, tailStr(s.Stderr, 2500)), s)
+		}
+		return false
+	case s.Result.Hung:
+		c.Violate("entities|no-response", fmt.Sprintf("_entities did not answer within 50 s although every resolver returned\n%s\n%s", where, s.Result.LeakStack), s)
+		return false
+	case s.Result.Dirty:
+		c.Violate("entities|panic-escaped", fmt.Sprintf("a panic escaped the response function\n%s\nnotes=%v", where, s.Result.Notes), s)
+		return false
+	case len(s.Result.GateErrs) > 0:
+		vlib.Infra("the _entities query was rejected: %v", s.Result.GateErrs)
+	}
+	for _, n := range s.Result.Notes {
+		if strings.HasPrefix(n, "inapplicable") {
+			return false
+		}
+		if strings.HasPrefix(n, "order:") {
+			*drift++
+		}
+	}
+	o, problem := observe(s, len(e.Reps))
+	if o == nil {
+		c.Violate("entities|malformed-response", fmt.Sprintf("%s\n%s", problem, where), s)
+		return false
+	}
+	if key, detail := judge(j, o); key != "" {
+		c.Violate(key, detail, s)
+	}
+	return true
+}
+
+func tailStr(s string, n int) string {
+	if len(s) > n {
+		return s[len(s)-n:]
+	}
+	return s
 }
